@@ -241,46 +241,56 @@ func c19PresenceGuards(c *cx, f *eng.Fn) {
 		return
 	}
 	f.WalkBody(func(nd ast.Node) bool {
-		is, ok := nd.(*ast.IfStmt)
-		if !ok {
-			return true
-		}
-		var conj []ast.Expr
-		var split func(e ast.Expr)
-		split = func(e ast.Expr) {
-			e = ast.Unparen(e)
-			if be, ok := e.(*ast.BinaryExpr); ok && be.Op == token.LAND {
-				split(be.X)
-				split(be.Y)
-				return
-			}
-			conj = append(conj, e)
-		}
-		split(is.Cond)
-		for _, a := range conj {
-			px, ok := nilCompare(f, a, token.NEQ)
-			if !ok {
-				continue
-			}
-			x := f.Norm(px, nil)
-			if _, isPtr := f.Info().TypeOf(px).Underlying().(*types.Pointer); !isPtr || !strings.HasPrefix(x, "recv.") {
-				continue
-			}
-			bad := false
-			for _, b := range conj {
-				if b != a && strings.Contains(f.Norm(b, nil), "*"+x) {
-					bad = true
+		// guards: if-conditions and the case expressions of tagless switches
+		var guards []ast.Expr
+		switch is := nd.(type) {
+		case *ast.IfStmt:
+			guards = append(guards, is.Cond)
+		case *ast.SwitchStmt:
+			if is.Tag == nil {
+				for _, cc := range is.Body.List {
+					guards = append(guards, cc.(*ast.CaseClause).List...)
 				}
 			}
-			if !bad {
-				c.r.Check("C19.6", f, "presence guard of "+x, "an optional pointer field is emitted iff it is present: the guard does not also test the pointed-to value (a present zero value must round-trip)", is.Pos(), true, "")
+		}
+		for _, guard := range guards {
+			var conj []ast.Expr
+			var split func(e ast.Expr)
+			split = func(e ast.Expr) {
+				e = ast.Unparen(e)
+				if be, ok := e.(*ast.BinaryExpr); ok && be.Op == token.LAND {
+					split(be.X)
+					split(be.Y)
+					return
+				}
+				conj = append(conj, e)
 			}
-			for _, b := range conj {
-				if b == a {
+			split(guard)
+			for _, a := range conj {
+				px, ok := nilCompare(f, a, token.NEQ)
+				if !ok {
 					continue
 				}
-				if strings.Contains(f.Norm(b, nil), "*"+x) {
-					c.r.Check("C19.6", f, "presence guard of "+x, "an optional pointer field is emitted iff it is present: the guard does not also test the pointed-to value (a present zero value must round-trip)", is.Pos(), false, "guard "+c.p.NodeStr(is.Cond)+" drops a present value")
+				x := f.Norm(px, nil)
+				if _, isPtr := f.Info().TypeOf(px).Underlying().(*types.Pointer); !isPtr || !strings.HasPrefix(x, "recv.") {
+					continue
+				}
+				bad := false
+				for _, b := range conj {
+					if b != a && strings.Contains(f.Norm(b, nil), "*"+x) {
+						bad = true
+					}
+				}
+				if !bad {
+					c.r.Check("C19.6", f, "presence guard of "+x, "an optional pointer field is emitted iff it is present: the guard does not also test the pointed-to value (a present zero value must round-trip)", guard.Pos(), true, "")
+				}
+				for _, b := range conj {
+					if b == a {
+						continue
+					}
+					if strings.Contains(f.Norm(b, nil), "*"+x) {
+						c.r.Check("C19.6", f, "presence guard of "+x, "an optional pointer field is emitted iff it is present: the guard does not also test the pointed-to value (a present zero value must round-trip)", guard.Pos(), false, "guard "+c.p.NodeStr(guard)+" drops a present value")
+					}
 				}
 			}
 		}
